@@ -707,6 +707,9 @@ func runStorage(profile string, seed int64, histories, steps int, out *Emitter) 
 			}
 			out.Count(profile+"."+opKind(op), okc)
 		}
+		if withGenesis {
+			genesisRoundTrip(c, hi, profile, out)
+		}
 		c.Close()
 	}
 }
